@@ -129,13 +129,14 @@ def run(ck, ctx):
 
     # ---------------------------------------------------------------- R14.3 row alignment per mode
     def r143():
-        mode_conds = {g.vn(c) for e in CG.effects for c, _p in e.pc if CG.is_mode_cond(c)}
+        mode_conds = {g.vn(c): CG.mode_polarity(c) for e in CG.effects for c, _p in e.pc if CG.is_mode_cond(c)}
         for n in g.nodes:
             if n.op == "Phi" and CG.is_mode_cond(n.args[0]):
-                mode_conds.add(g.vn(n.args[0]))
+                mode_conds[g.vn(n.args[0])] = CG.mode_polarity(n.args[0])
         for target in (True, False):
             lc = LenClass(I, rowwise_select_funcs={"vec_1d_interp"})
-            lc.assume = {v: target for v in mode_conds}
+            # truth value of every test of the geometry mode in this mode (== "Target", != "Target", ...)
+            lc.assume = {v: (target == pol) for v, pol in mode_conds.items()}
             thrown = I.cfg_attr(I.cfg_attr(CG.cfg, "simulation", None), "thrown_events", None)
             lc.seed(thrown, ("S",))
             label = "target" if target else "diffuse"
@@ -145,7 +146,7 @@ def run(ck, ctx):
             n = 0
             for name, lst in sorted(CG.columns.items()):
                 for v, e in lst:
-                    pcs = [p for c, p in e.pc if CG.is_mode_cond(c)]
+                    pcs = [p == CG.mode_polarity(c) for c, p in e.pc if CG.is_mode_cond(c)]
                     if pcs and pcs[-1] != target:
                         continue
                     if name in ("tmcintopt", "tmcintrad") and not target:
